@@ -125,6 +125,23 @@ pub fn dispatch(op: &str, a: &[&str]) -> Option<Ans> {
             v3.resize(m, 7);
             v3.resize(back, 9);
             if h3.as_slice() != v3 { return Some((format!("mismatch HeapBytes resize({},7) then resize({},9) {}", m, back, hex(h3.as_slice())), ok(&v))); }
+            // … a non-zero fill byte in the protected containers too (locked, and unlocked again): `resize(n, value)` pads with `value`
+            let r_nz = std::panic::catch_unwind(|| -> Option<String> {
+                let mut l3 = HeapBytes::from_slice_into_locked(&data).unwrap();
+                l3.resize(m, 7);
+                l3.resize(back, 9);
+                if l3.as_slice() != v3 { return Some(format!("mismatch Locked<HeapBytes> resize({},7) then resize({},9) {}", m, back, hex(l3.as_slice()))); }
+                let mut u3 = HeapBytes::from_slice_into_locked(&data).unwrap().munlock().unwrap();
+                u3.resize(m, 7);
+                u3.resize(back, 9);
+                if u3.as_slice() != v3 { return Some(format!("mismatch Unlocked<HeapBytes> resize({},7) then resize({},9) {}", m, back, hex(u3.as_slice()))); }
+                None
+            });
+            match r_nz {
+                Ok(None) => {}
+                Ok(Some(msg)) => return Some((msg, ok(&v))),
+                Err(_) => return Some(("mismatch resize with a non-zero fill byte panicked in a protected container".into(), ok(&v))),
+            }
             // clones keep the bytes
             let l2 = HeapBytes::from_slice_into_locked(&data).unwrap();
             let c1 = l2.clone();
